@@ -295,6 +295,7 @@ fn map_model(cfg: &DfCfg, r: &mut Prng) -> Model {
     let mut groups: Vec<MItem> = Vec::new();
     let mut layer_no = 0;
     for gk in 0..n_groups {
+        let mut extra_in_game_group = 0i32;
         let n_layers = 1 + r.usize_below(2);
         // group v3: version, offset_x, offset_y, parallax_x, parallax_y, start_layer, num_layers, use_clipping, clip x,y,w,h, name[3]
         groups.push(MItem { type_id: 4, id: gk as u16, data: vec![3, 0, 0, 100, 100, layer_no as i32, n_layers as i32, 0, 0, 0, 0, 0, -2139062144, -2139062144, -2139062144] });
@@ -303,11 +304,37 @@ fn map_model(cfg: &DfCfg, r: &mut Prng) -> Model {
             let tiles = add_data(r.bytes((w * h * 4) as usize));
             let game = gk == 0 && lk == 0;
             // layer header: version, type(2 = tilemap), flags; tilemap v3: version, width, height, flags(game=1), color rgba, color_env, color_env_offset, image, data, name[3]
-            let mut d = vec![0, 2, 0, 3, w, h, game as i32, 255, 255, 255, 255, -1, 0, -1, tiles, -2139062144, -2139062144, -2139062144];
-            if r.chance(1, 6) {
-                d[1] = 3; // quads layer with nonsense payload: must be an error, not a panic
-            }
+            let d = vec![0, 2, 0, 3, w, h, game as i32, 255, 255, 255, 255, -1, 0, -1, tiles, -2139062144, -2139062144, -2139062144];
             layers.push(MItem { type_id: 5, id: layer_no as u16, data: d });
+            layer_no += 1;
+            if game {
+                // DDRace game layers share the game layer's dimensions; their own tile data index sits
+                // after the name, at a position that depends on the kind
+                for (k, (flag, tile_size)) in [(2i32, 2usize), (4, 6), (16, 4), (32, 2)].iter().enumerate() {
+                    if !r.chance(1, 3) {
+                        continue;
+                    }
+                    let zeroes = add_data(vec![0u8; (w * h * 4) as usize]);
+                    let special = add_data(r.bytes((w * h) as usize * tile_size));
+                    let mut d = vec![0, 2, 0, 3, w, h, *flag, 255, 255, 255, 255, -1, 0, -1, zeroes, -2139062144, -2139062144, -2139062144, -1, -1, -1, -1, -1];
+                    let pos = 18 + match k { 0 => 0, 1 => 1, 2 => 3, _ => 4 };
+                    d[pos] = special;
+                    layers.push(MItem { type_id: 5, id: layer_no as u16, data: d });
+                    layer_no += 1;
+                    extra_in_game_group += 1;
+                }
+            }
+        }
+        if gk == 0 {
+            // fix up the game group's layer count
+            let g = groups.last_mut().unwrap();
+            g.data[6] += extra_in_game_group;
+        }
+        if r.chance(1, 3) {
+            // a quads layer in its own group
+            let quads = add_data(r.bytes(152 * 2));
+            groups.push(MItem { type_id: 4, id: (n_groups + gk) as u16, data: vec![3, 0, 0, 100, 100, layer_no as i32, 1, 0, 0, 0, 0, 0, -2139062144, -2139062144, -2139062144] });
+            layers.push(MItem { type_id: 5, id: layer_no as u16, data: vec![0, 3, 0, 2, 2, quads, -1, -2139062144, -2139062144, -2139062144] });
             layer_no += 1;
         }
     }
@@ -477,13 +504,37 @@ impl DfEngine {
                     }
                 }
             }
-            let _ = m.game_layers();
+            if let Ok(gl) = m.game_layers() {
+                n += 1000;
+                if m.layer_tiles(gl.game()).is_ok() {
+                    n += 1;
+                }
+                if let Some(t) = gl.teleport() {
+                    let _ = m.tele_layer_tiles(t).map(|_| n += 1);
+                }
+                if let Some(t) = gl.speedup() {
+                    let _ = m.speedup_layer_tiles(t).map(|_| n += 1);
+                }
+                if let Some(t) = gl.front() {
+                    let _ = m.layer_tiles(t).map(|_| n += 1);
+                }
+                if let Some(t) = gl.switch() {
+                    let _ = m.switch_layer_tiles(t).map(|_| n += 1);
+                }
+                if let Some(t) = gl.tune() {
+                    let _ = m.tune_layer_tiles(t).map(|_| n += 1);
+                }
+            }
             for gi in m.group_indices() {
                 if let Ok(g) = m.group(gi) {
                     n += 1;
                     for li in g.layer_indices.clone() {
                         if let Ok(l) = m.layer(li) {
                             n += 1;
+                            if let libtw2_map::reader::LayerType::Quads(q) = l.t {
+                                let _ = m.reader.read_data(q.data);
+                                n += 1;
+                            }
                             if let libtw2_map::reader::LayerType::Tilemap(t) = l.t {
                                 if let Some(normal) = t.type_.to_normal() {
                                     let idx = t.tiles(normal.data);
@@ -719,9 +770,15 @@ impl Engine for DfEngine {
             match DfEngine::map_traverse(cfg, &bytes) {
                 Ok(n) => {
                     ctx.count("probe_map_traversed");
+                    if n >= 1000 {
+                        ctx.count("probe_map_game_layers_ok");
+                    }
+                    if n % 1000 >= 8 {
+                        ctx.count("probe_map_8plus_accessors_ok");
+                    }
                     ctx.t(n as u64);
-                    if !damaged && n < 3 {
-                        return Some(v("well-formed-file-rejected", &[("layer", "map")], format!("the map reader got through only {} accessors of a well-formed map", n)));
+                    if !damaged && n < 1003 {
+                        return Some(v("well-formed-file-rejected", &[("layer", "map")], format!("the map reader got through only {} accessors of a well-formed map (game layers ok: {})", n % 1000, n >= 1000)));
                     }
                     if !damaged {
                         ctx.count("probe_map_intact_read");
@@ -766,7 +823,7 @@ impl Engine for DfEngine {
             ],
             real: vec!["datafile::raw::Reader (header, tables, check(), item/data accessors)", "datafile::format", "zlib-minimal + libz", "map::reader::Reader over datafile::Reader over a temp file (file.rs plumbing)"],
             stub: vec!["the disk behind CallbackNew / CallbackReadData (simulated)"],
-            required_probes: vec!["probe_intact_file_read", "probe_damaged_file_accepted", "probe_damaged_file_rejected", "probe_map_traversed", "probe_map_intact_read"],
+            required_probes: vec!["probe_intact_file_read", "probe_damaged_file_accepted", "probe_damaged_file_rejected", "probe_map_traversed", "probe_map_intact_read", "probe_map_game_layers_ok", "probe_map_8plus_accessors_ok"],
             fault_kinds: vec!["fault_torn_tail", "fault_bit_rot_field", "fault_bit_rot_coherent", "fault_bit_flip", "fault_callback_error", "fault_file_shrinks_after_open", "fault_alloc_refused"],
         }
     }
